@@ -244,6 +244,23 @@ Section Reindex.
     - rewrite app_nil_r. rewrite filter_lt_S by exact Hni. rewrite Hlow1, Hhigh1. split; reflexivity.
   Qed.
 
+  (* a matched sub-app is not in the index: it is only prefixed *)
+  Lemma reindex_step_dom done r tail ix r' :
+    inv done (r :: tail) ix -> is_dom r = true -> f r = BOk r' ->
+    inv (done ++ [r']) tail ix.
+  Proof.
+    intros Hinv Hd Hf. set (i := length done) in *.
+    assert (Hd' : is_dom r' = true) by (rewrite (f_kind r r' Hf); exact Hd).
+    intros k. rewrite app_length. cbn [length]. rewrite Nat.add_1_r. fold i.
+    destruct (Hinv k) as [Hlow Hhigh]. fold i in Hlow, Hhigh. cbn [pw] in Hhigh.
+    rewrite (in_bucket_dom r k Hd) in Hhigh. cbn [app] in Hhigh.
+    assert (Hni : ~ In i (bucket ix k)).
+    { intros Hin. apply (high_has_i done r tail ix k Hinv) in Hin. rewrite (in_bucket_dom r k Hd) in Hin. discriminate. }
+    rewrite pw_app. cbn [pw]. rewrite (in_bucket_dom r' k Hd'). cbn [app]. rewrite app_nil_r. split.
+    - rewrite filter_lt_S by exact Hni. exact Hlow.
+    - rewrite filter_ge_S, Hhigh. apply filter_all. intros x Hx. apply pw_ge in Hx. apply Nat.leb_le. exact Hx.
+  Qed.
+
   Lemma reindex_loop_inv : forall l done ix rs' ix',
     inv done l ix ->
     reindex_loop f l (length done) ix = BOk (rs', ix') ->
@@ -253,15 +270,22 @@ Section Reindex.
     - cbn [reindex_loop] in H. inversion H; subst. rewrite app_nil_r. split; [|constructor].
       apply index_ok_pw. intros k. destruct (Hinv k) as [Hlow Hhigh]. cbn [pw] in Hhigh.
       rewrite <- Hlow. symmetry. apply filter_split_end. exact Hhigh.
-    - cbn [reindex_loop] in H.
-      destruct (idx_remove (index_key r) (length done) ix) as [ix1|e] eqn:Hrem; [|discriminate].
-      destruct (f r) as [r'|e] eqn:Hf; [|discriminate].
-      pose proof (reindex_step done r tail ix ix1 r' Hinv Hrem Hf) as Hinv'.
-      assert (Hlen : S (length done) = length (done ++ [r'])) by (rewrite app_length; simpl; lia).
-      rewrite Hlen in H.
-      destruct (reindex_loop f tail (length (done ++ [r'])) (idx_append (index_key r') (length done) ix1)) as [[l'' ix2]|e] eqn:Hloop; [|discriminate].
-      inversion H; subst rs' ix'. destruct (IH _ _ _ _ Hinv' Hloop) as [Hok Hall].
-      rewrite <- app_assoc in Hok. split; [exact Hok|constructor; assumption].
+    - cbn [reindex_loop] in H. destruct (is_dom r) eqn:Hd.
+      + destruct (f r) as [r'|e] eqn:Hf; [|discriminate].
+        pose proof (reindex_step_dom done r tail ix r' Hinv Hd Hf) as Hinv'.
+        assert (Hlen : S (length done) = length (done ++ [r'])) by (rewrite app_length; simpl; lia).
+        rewrite Hlen in H.
+        destruct (reindex_loop f tail (length (done ++ [r'])) ix) as [[l'' ix2]|e] eqn:Hloop; [|discriminate].
+        inversion H; subst rs' ix'. destruct (IH _ _ _ _ Hinv' Hloop) as [Hok Hall].
+        rewrite <- app_assoc in Hok. split; [exact Hok|constructor; assumption].
+      + destruct (idx_remove (index_key r) (length done) ix) as [ix1|e] eqn:Hrem; [|discriminate].
+        destruct (f r) as [r'|e] eqn:Hf; [|discriminate].
+        pose proof (reindex_step done r tail ix ix1 r' Hinv Hrem Hf) as Hinv'.
+        assert (Hlen : S (length done) = length (done ++ [r'])) by (rewrite app_length; simpl; lia).
+        rewrite Hlen in H.
+        destruct (reindex_loop f tail (length (done ++ [r'])) (idx_append (index_key r') (length done) ix1)) as [[l'' ix2]|e] eqn:Hloop; [|discriminate].
+        inversion H; subst rs' ix'. destruct (IH _ _ _ _ Hinv' Hloop) as [Hok Hall].
+        rewrite <- app_assoc in Hok. split; [exact Hok|constructor; assumption].
   Qed.
 
   Lemma inv_start rs ix : index_ok rs ix -> inv [] rs ix.
@@ -293,11 +317,17 @@ Proof.
   inversion H1; subst. inversion H2; subst. constructor; eauto.
 Qed.
 
-Lemma add_prefix_ok pfx : forall r r', res_ok r -> add_prefix pfx r = BOk r' -> res_ok r'.
+(* a sub-application prefix that reaches the resources unchanged by yarl's decoder, and brace free *)
+Definition clean_prefix (pfx : str) : Prop := memN PCT pfx = false /\ memN ik_brace pfx = false.
+
+Lemma add_prefix_ok pfx : clean_prefix pfx -> forall r r', res_ok r -> add_prefix pfx r = BOk r' -> res_ok r'.
 Proof.
+  intros [Hpct Hbr].
   induction r using resource_ind'; intros r' Hok Hadd; cbn [add_prefix] in Hadd.
-  - inversion Hadd. constructor.
-  - inversion Hok; subst. inversion Hadd. change (pfx ++ formatter_of pat) with (formatter_of (Lit pfx :: pat)). constructor.
+  - inversion Hok; subst. inversion Hadd. constructor. rewrite memN_app, Hbr. assumption.
+  - inversion Hok as [|? ? ? Hlead| | |]; subst. inversion Hadd.
+    change (pfx ++ formatter_of pat) with (formatter_of (Lit pfx pfx :: pat)). constructor.
+    unfold lead_ok in *. cbn [lead_f lead_m]. rewrite dec_plain_app by assumption. rewrite Hlead. reflexivity.
   - inversion Hadd. constructor.
   - inversion Hok as [| | |? ? ? Hix Hrs|]; subst.
     destruct (reindex_loop (add_prefix pfx) rs 0%nat ix) as [[rs' ix']|e] eqn:Hl; [|discriminate].
@@ -311,9 +341,9 @@ Proof.
     rewrite Forall_forall in *. intros a Ha b Hab Hpa. apply (H a Ha b Hpa Hab).
 Qed.
 
-Lemma reindex_ok pfx rt rt' : router_ok rt -> reindex pfx rt = BOk rt' -> router_ok rt'.
+Lemma reindex_ok pfx rt rt' : clean_prefix pfx -> router_ok rt -> reindex pfx rt = BOk rt' -> router_ok rt'.
 Proof.
-  intros [Hix Hrs] H. unfold reindex in H.
+  intros Hclean [Hix Hrs] H. unfold reindex in H.
   destruct (reindex_loop (add_prefix pfx) (r_res rt) 0%nat (r_ix rt)) as [[rs' ix']|e] eqn:Hl; [|discriminate].
   inversion H; subst rt'. destruct (reindex_loop_ok _ (add_prefix_kind pfx) _ _ rs' ix' Hix Hl) as [Hix' Hall].
   split; [exact Hix'|]. cbn [r_res]. eapply Forall2_Forall_r; [exact Hall| |exact Hrs].
@@ -326,7 +356,7 @@ Lemma freeze_res_same r : is_dom r = is_dom (freeze_res r) /\ index_key r = inde
 Proof. destruct r as [[|c p] rt|o f pat rt|p rt|p rs ix|d rs ix]; split; reflexivity. Qed.
 
 Lemma freeze_res_ok r : res_ok r -> res_ok (freeze_res r).
-Proof. destruct r as [[|c p] rt|o f pat rt|p rt|p rs ix|d rs ix]; intros H; try exact H. constructor. Qed.
+Proof. destruct r as [[|c p] rt|o f pat rt|p rt|p rs ix|d rs ix]; intros H; try exact H. constructor. reflexivity. Qed.
 
 Lemma freeze_ok rt : router_ok rt -> router_ok (freeze rt).
 Proof.
@@ -345,8 +375,8 @@ Lemma add_route_to_same m h r r' : add_route_to m h r = BOk r' ->
   is_dom r = is_dom r' /\ index_key r = index_key r' /\ (res_ok r -> res_ok r').
 Proof.
   destruct r as [p rt|o f pat rt|p rt|p rs ix|d rs ix]; cbn [add_route_to]; intros H; try discriminate.
-  - destruct (route_lookup m rt); inversion H. repeat split. intros _. constructor.
-  - destruct (route_lookup m rt); inversion H. repeat split. intros Hok. inversion Hok; subst. constructor.
+  - destruct (route_lookup m rt); inversion H. repeat split. intros Hok. inversion Hok; subst. constructor. assumption.
+  - destruct (route_lookup m rt); inversion H. repeat split. intros Hok. inversion Hok; subst. constructor. assumption.
 Qed.
 
 Lemma rev_last_split {A} (l : list A) y t : rev l = y :: t -> l = removelast l ++ [y] /\ t = rev (removelast l).
@@ -369,6 +399,59 @@ Proof.
   rewrite <- (replace_last_snoc (removelast l) y x), <- Hl. reflexivity.
 Qed.
 
+(* ---- what parse_template produces: at most one leading literal, matched in its path_safe form *)
+Definition lead_shape (its : list item) : Prop :=
+  match its with
+  | [] => True
+  | Hole _ _ _ :: _ => True
+  | Lit q m :: [] => m = path_safe_dec q
+  | Lit q m :: Hole _ _ _ :: _ => m = path_safe_dec q
+  | Lit _ _ :: Lit _ _ :: _ => False
+  end.
+
+Lemma lead_shape_ok its : lead_shape its -> lead_ok its.
+Proof.
+  unfold lead_ok. destruct its as [|[q m|n c mn] [|[q' m'|n' c' mn'] r]]; cbn [lead_shape lead_f lead_m]; intros H;
+    try reflexivity; try contradiction; subst; rewrite !app_nil_r; reflexivity.
+Qed.
+
+Lemma parse_hole_is_hole body h : parse_hole body = Some h -> exists n c mn, h = Hole n c mn.
+Proof.
+  unfold parse_hole. destruct (negb (valid_name (before_char 58 body))); [discriminate|].
+  destruct (strip_prefix (before_char 58 body) body) as [[|x re]|]; [|
+    destruct (assoc re regex_family) as [[c mn]|]|]; intros H; inversion H; eauto.
+Qed.
+
+Lemma lit_item_shape lit l : lit_item lit = Some l -> l = [] \/ exists q, l = [Lit q (path_safe_dec q)].
+Proof.
+  unfold lit_item. destruct lit; [intros H; inversion H; auto|].
+  destruct (requote_path (rev (n :: lit))); intros H; inversion H. eauto.
+Qed.
+
+Lemma parse_aux_shape f : forall lit s its, parse_aux f lit s = Some its -> lead_shape its.
+Proof.
+  induction f as [|f IH]; intros lit s its H; [discriminate|]. cbn [parse_aux] in H.
+  destruct s as [|c s'].
+  - destruct (lit_item_shape lit its H) as [->|[q ->]]; simpl; auto.
+  - destruct (c =? 125); [discriminate|]. destruct (c =? 123).
+    + destruct (take_until_close s') as [[body rest]|]; [|discriminate].
+      destruct (lit_item lit) as [l|] eqn:El; [|discriminate].
+      destruct (parse_hole body) as [h|] eqn:Eh; [|discriminate].
+      destruct (parse_aux f [] rest) as [its'|]; [|discriminate]. inversion H; subst its.
+      destruct (parse_hole_is_hole body h Eh) as (n & cl & mn & ->).
+      destruct (lit_item_shape lit l El) as [->|[q ->]]; simpl; auto.
+    + eapply IH. exact H.
+Qed.
+
+Lemma new_resource_ok path r : new_resource path = BOk r -> res_ok r.
+Proof.
+  unfold new_resource. destruct (has_brace path) eqn:Hb.
+  - unfold parse_template. destruct (parse_aux (S (length path)) [] path) as [its|] eqn:Ep; [|discriminate].
+    destruct (nodup_str (hole_names its)); intros H; inversion H. constructor.
+    apply lead_shape_ok. eapply parse_aux_shape. exact Ep.
+  - intros H. inversion H. constructor. unfold has_brace in Hb. apply orb_false_iff in Hb. tauto.
+Qed.
+
 Lemma op_route_ok m path h rt rt' : router_ok rt -> op_route m path h rt = BOk rt' -> router_ok rt'.
 Proof.
   intros Hok H. unfold op_route in H.
@@ -377,8 +460,7 @@ Proof.
   - destruct (new_resource path) as [r|e] eqn:En; [|discriminate].
     destruct (add_route_to m h r) as [r'|e] eqn:Ea; [|discriminate]. inversion H; subst rt'.
     apply register_ok; [assumption|]. destruct (add_route_to_same m h r r' Ea) as (_ & _ & Hr). apply Hr.
-    unfold new_resource in En. destruct (has_brace path); [|inversion En; constructor].
-    destruct (parse_template path); inversion En. constructor.
+    eapply new_resource_ok. exact En.
   - destruct (raw_match y path).
     + destruct (add_route_to m h y) as [r'|e] eqn:Ea; [|discriminate]. inversion H; subst rt'.
       destruct (add_route_to_same m h y r' Ea) as (Hd & Hk & Hr).
@@ -392,8 +474,7 @@ Proof.
     + destruct (new_resource path) as [r|e] eqn:En; [|discriminate].
       destruct (add_route_to m h r) as [r'|e] eqn:Ea; [|discriminate]. inversion H; subst rt'.
       apply register_ok; [assumption|]. destruct (add_route_to_same m h r r' Ea) as (_ & _ & Hr). apply Hr.
-      unfold new_resource in En. destruct (has_brace path); [|inversion En; constructor].
-      destruct (parse_template path); inversion En. constructor.
+      eapply new_resource_ok. exact En.
 Qed.
 
 Lemma op_static_ok prefix h rt rt' : router_ok rt -> op_static prefix h rt = BOk rt' -> router_ok rt'.
@@ -404,15 +485,16 @@ Proof.
   destruct (requote_path (strip_one_slash prefix)); inversion H. apply register_ok; [assumption|constructor].
 Qed.
 
-Lemma op_subapp_ok prefix sub rt rt' : router_ok rt -> router_ok sub -> op_subapp prefix sub rt = BOk rt' -> router_ok rt'.
+Lemma op_subapp_ok prefix sub rt rt' : clean_prefix (rstrip SLASH prefix) ->
+  router_ok rt -> router_ok sub -> op_subapp prefix sub rt = BOk rt' -> router_ok rt'.
 Proof.
-  intros Hok Hsub H. unfold op_subapp in H.
+  intros Hclean Hok Hsub H. unfold op_subapp in H.
   destruct (is_nil (rstrip SLASH prefix)); [discriminate|].
   destruct (negb (prefix_resource_ok (rstrip SLASH prefix))); [discriminate|].
   destruct (requote_path (rstrip SLASH prefix)); [|discriminate].
   destruct (reindex (rstrip SLASH prefix) sub) as [sub'|e] eqn:Er; [|discriminate].
   inversion H; subst rt'. apply register_ok; [assumption|].
-  destruct (freeze_ok sub' (reindex_ok _ _ _ Hsub Er)) as [H1 H2]. constructor; assumption.
+  destruct (freeze_ok sub' (reindex_ok _ _ _ Hclean Hsub Er)) as [H1 H2]. constructor; assumption.
 Qed.
 
 Lemma op_domain_ok d sub rt rt' : router_ok rt -> router_ok sub -> op_domain d sub rt = BOk rt' -> router_ok rt'.
@@ -437,6 +519,13 @@ Proof.
   - apply H4. induction ops as [|o ops IHo]; constructor; [apply IH|apply IHo].
 Qed.
 
+(* every add_subapp prefix is clean *)
+Inductive op_clean : op -> Prop :=
+| oc_route m path h : op_clean (ORoute m path h)
+| oc_static prefix h : op_clean (OStatic prefix h)
+| oc_sub prefix ops : clean_prefix (rstrip SLASH prefix) -> Forall op_clean ops -> op_clean (OSub prefix ops)
+| oc_dom d ops : Forall op_clean ops -> op_clean (ODom d ops).
+
 Lemma fold_ops_ok ops : Forall (fun o => forall rt rt', router_ok rt -> build_op o rt = BOk rt' -> router_ok rt') ops ->
   forall rt rt', router_ok rt -> fold_ops build_op ops rt = BOk rt' -> router_ok rt'.
 Proof.
@@ -445,20 +534,24 @@ Proof.
   - destruct (build_op o rt) as [rt1|e] eqn:E; [|discriminate]. eapply IH; [|exact H]. eapply Ho; eassumption.
 Qed.
 
-Lemma build_op_ok : forall o rt rt', router_ok rt -> build_op o rt = BOk rt' -> router_ok rt'.
+Lemma build_op_ok : forall o, op_clean o -> forall rt rt', router_ok rt -> build_op o rt = BOk rt' -> router_ok rt'.
 Proof.
-  induction o using op_ind'; intros rt rt' Hok Hb; cbn [build_op] in Hb.
+  induction o using op_ind'; intros Hc rt rt' Hok Hb; cbn [build_op] in Hb.
   - eapply op_route_ok; eassumption.
   - eapply op_static_ok; eassumption.
-  - destruct (fold_ops build_op ops empty_router) as [sub|e] eqn:E; [|discriminate].
-    eapply op_subapp_ok; [exact Hok| |exact Hb]. eapply fold_ops_ok; [exact H|apply empty_ok|exact E].
-  - destruct (fold_ops build_op ops empty_router) as [sub|e] eqn:E; [|discriminate].
-    eapply op_domain_ok; [exact Hok| |exact Hb]. eapply fold_ops_ok; [exact H|apply empty_ok|exact E].
+  - inversion Hc as [| |? ? Hpfx Hops|]; subst.
+    destruct (fold_ops build_op ops empty_router) as [sub|e] eqn:E; [|discriminate].
+    eapply op_subapp_ok; [exact Hpfx|exact Hok| |exact Hb]. eapply fold_ops_ok; [|apply empty_ok|exact E].
+    rewrite Forall_forall in *. intros o Ho. apply H; auto.
+  - inversion Hc as [| | |? ? Hops]; subst.
+    destruct (fold_ops build_op ops empty_router) as [sub|e] eqn:E; [|discriminate].
+    eapply op_domain_ok; [exact Hok| |exact Hb]. eapply fold_ops_ok; [|apply empty_ok|exact E].
+    rewrite Forall_forall in *. intros o Ho. apply H; auto.
 Qed.
 
-Theorem build_app_ok ops rt : build_app ops = BOk rt -> router_ok rt.
+Theorem build_app_ok ops rt : Forall op_clean ops -> build_app ops = BOk rt -> router_ok rt.
 Proof.
-  unfold build_app. intros H. destruct (fold_ops build_op ops empty_router) as [rt0|e] eqn:E; [|discriminate].
+  unfold build_app. intros Hc H. destruct (fold_ops build_op ops empty_router) as [rt0|e] eqn:E; [|discriminate].
   inversion H; subst rt. apply freeze_ok. eapply fold_ops_ok; [|apply empty_ok|exact E].
-  apply Forall_forall. intros o _. apply build_op_ok.
+  rewrite Forall_forall in *. intros o Ho. apply build_op_ok. auto.
 Qed.
